@@ -7,6 +7,7 @@ the msgpack decoder (any function).  A reply is VALID when its first byte is the
 conflict-response type and the rest decodes as a member (a nil member is valid).
 -/
 import SerfProofs.Lemmas.Conflict
+import SerfModel.Gen.ConflictVote
 namespace SerfProofs.C36
 open SerfModel SerfModel.Conflict SerfProofs.Conflict
 
@@ -69,6 +70,79 @@ theorem C36_nil_member_not_mine (addr : Bytes) (port : Nat) (h : addr ≠ [] ∨
     | nil => exact absurd rfl h
     | cons a as => simp [mine, ipEqual]
   · simp [mine, h]
+
+/-- The hypothesis of `C36_nil_member_not_mine` is needed: a node whose own address is nil and port 0 (not
+reachable: memberlist always advertises an address) would count a nil member as a vote for itself. -/
+theorem C36_nil_member_degenerate : mine [] 0 none = true := by decide
+
+/-! ### Tie to the source (regenerated on every run) -/
+
+/-- **The vote as it is in the source**: type check, then a FRESH `var member Member`, then the decode,
+and only then `responses++` and the matching test on address and port; survive on `matching >= majority`,
+shut down otherwise; `majority` is `responses/2 + 1` as written; the type byte is the model's. -/
+theorem C36_vote_shape_gen :
+    Gen.ConflictVote.shape.asModelled = true ∧
+    (∀ t, shutsDownG Gen.ConflictVote.majority t = shutsDown t) ∧
+    Gen.ConflictVote.responseType = conflictResponseType.toNat :=
+  ⟨by decide, fun _ => rfl, by decide⟩
+
+theorem countInto_fresh (dec : DecoderInto) (addr : Bytes) (port : Nat) (rs : List Bytes) :
+    ∀ (t : Tally) (v : MemberVar),
+      (rs.foldl (countInto true dec addr port) (t, v)).1 = rs.foldl (count dec.fromZero addr port) t := by
+  induction rs with
+  | nil => intro t v; rfl
+  | cons r rs ih =>
+    intro t v
+    simp only [List.foldl_cons]
+    cases r with
+    | nil => simpa [countInto, count, valid?] using ih t v
+    | cons b rest =>
+      by_cases hb : (b == conflictResponseType) = true
+      · cases hd : dec {} rest with
+        | none =>
+          have e1 : countInto true dec addr port (t, v) (b :: rest) = (t, {}) := by simp [countInto, hb, hd]
+          have e2 : count dec.fromZero addr port t (b :: rest) = t := by
+            simp [count, valid?, hb, DecoderInto.fromZero, hd]
+          rw [e1, e2]; exact ih t {}
+        | some m =>
+          have e1 : countInto true dec addr port (t, v) (b :: rest) =
+              ({ responses := t.responses + 1,
+                 matching := if ipEqual m.addr addr && m.port == port then t.matching + 1 else t.matching }, m) := by
+            simp [countInto, hb, hd]
+          have e2 : count dec.fromZero addr port t (b :: rest) =
+              { responses := t.responses + 1,
+                matching := if ipEqual m.addr addr && m.port == port then t.matching + 1 else t.matching } := by
+            simp [count, valid?, hb, DecoderInto.fromZero, hd, mine]
+          rw [e1, e2]; exact ih _ m
+      · have e1 : countInto true dec addr port (t, v) (b :: rest) = (t, v) := by simp [countInto, hb]
+        have e2 : count dec.fromZero addr port t (b :: rest) = t := by simp [count, valid?, hb]
+        rw [e1, e2]; exact ih t v
+
+/-- **Each reply is judged on its own**: with the decode target declared inside the loop (as the source
+has it), the loop over a stateful decoder is the loop of `C36_vote` over the decoder "from a zero Member":
+a reply that omits its address fields never inherits them from an earlier reply. -/
+theorem C36_fresh_member (dec : DecoderInto) (addr : Bytes) (port : Nat) (rs : List Bytes) :
+    tallyInto true dec addr port rs = tally dec.fromZero addr port rs := by
+  unfold tallyInto tally
+  exact countInto_fresh dec addr port rs {} {}
+
+/-- A msgpack-like stateful decoder: first byte 1 = error, 2 = a map WITHOUT address fields (the target
+keeps what it held), otherwise the bytes are the address, port 7946. -/
+def keepDec : DecoderInto := fun prev b =>
+  match b with
+  | 1 :: _ => none
+  | 2 :: _ => some prev
+  | bs => some ⟨bs, 7946⟩
+
+example : tallyInto true keepDec [127, 0, 0, 1] 7946 [[6, 127, 0, 0, 1], [6, 2], [6, 2]] = ⟨3, 1⟩ := by decide
+
+/-- Regression witness (the hoisted `var member Member`): a reply naming the node followed by two replies
+without address fields counts 3 of 3 instead of 1 of 3 — the node stays up although it lost the vote. -/
+theorem C36_reused_member_counterexample :
+    tallyInto false keepDec [127, 0, 0, 1] 7946 [[6, 127, 0, 0, 1], [6, 2], [6, 2]] = ⟨3, 3⟩ ∧
+    shutsDown (tallyInto false keepDec [127, 0, 0, 1] 7946 [[6, 127, 0, 0, 1], [6, 2], [6, 2]]) = false ∧
+    shutsDown (tallyInto true keepDec [127, 0, 0, 1] 7946 [[6, 127, 0, 0, 1], [6, 2], [6, 2]]) = true := by
+  decide
 
 -- Non-vacuity: decoder = "first byte 1 ↦ error, 2 ↦ nil member, else the bytes as an address on port 7946".
 private def dec : Decoder := fun b =>
